@@ -97,7 +97,7 @@ func GenWritePlan(t *tape.Tape, shapes []gen.Shape, maxRows int) WritePlan {
 	sh := shapes[t.Draw(len(shapes))]
 	p := WritePlan{
 		Shape:      sh.Name(),
-		WriterKind: gen.WriterKinds[t.Weighted(4, 2, 2, 2)],
+		WriterKind: gen.WriterKinds[t.Weighted(4, 2, 2, 2, 1)],
 		Profile:    t.Draw(3),
 		RowSeed:    t.Seed(),
 		NRows:      genRowCount(t, maxRows),
